@@ -81,12 +81,15 @@ class Outcome:
 
 
 def _innermost_repo_site(tb) -> str | None:
+    """file:qualified function of the innermost frame that belongs to the repository (no line numbers,
+    so the key survives unrelated edits)."""
     site = None
-    for fs in traceback.extract_tb(tb):
-        fn = os.path.realpath(fs.filename)
-        if fn.startswith(REPO + os.sep) or "/ncs/" in fn:
-            rel = os.path.relpath(fn, REPO) if fn.startswith(REPO + os.sep) else fn
-            site = f"{rel}:{fs.name}"
+    while tb is not None:
+        code = tb.tb_frame.f_code
+        fn = os.path.realpath(code.co_filename)
+        if fn.startswith(REPO + os.sep):
+            site = f"{os.path.relpath(fn, REPO)}:{getattr(code, 'co_qualname', code.co_name)}"
+        tb = tb.tb_next
     return site
 
 
